@@ -333,17 +333,45 @@ func (e *env) addSock(s *sock) {
 	s.bufs = map[int][]byte{1: make([]byte, e.capBig), 2: make([]byte, e.capSml)}
 }
 
-func (e *env) openPeer(id int, addr string) error {
-	p, err := multicast.NewUDPPeer(e.ioc, "udp", addr)
-	ev := Ev{Ev: "Open", P: id, Kind: "mc", Api: addr, Err: errClass(err)}
-	if err != nil {
-		e.d.emit(ev)
-		return fmt.Errorf("NewUDPPeer(%q): %w", addr, err)
+// portTaken: an ephemeral bind of a socket with SO_REUSEADDR/SO_REUSEPORT (every
+// UDPPeer) may be given a port that another reuse socket already holds, e.g. the
+// raw receiver's or another peer's of this scenario; that would silently change
+// the topology (unicast balanced between them), so such a peer is re-created.
+func (e *env) portTaken(port int) bool {
+	if port == e.port || port == e.xport {
+		return true
 	}
-	s := &sock{id: id, kind: "mc", peer: p, fd: p.NextLayer().RawFd()}
-	s.ip, s.port, err = sockName(s.fd)
-	if err != nil {
-		return err
+	for _, o := range e.socks {
+		if o.port == port {
+			return true
+		}
+	}
+	return false
+}
+
+func (e *env) openPeer(id int, addr string) error {
+	var p *multicast.UDPPeer
+	var s *sock
+	var ev Ev
+	for try := 0; ; try++ {
+		var err error
+		p, err = multicast.NewUDPPeer(e.ioc, "udp", addr)
+		ev = Ev{Ev: "Open", P: id, Kind: "mc", Api: addr, Err: errClass(err)}
+		if err != nil {
+			e.d.emit(ev)
+			return fmt.Errorf("NewUDPPeer(%q): %w", addr, err)
+		}
+		s = &sock{id: id, kind: "mc", peer: p, fd: p.NextLayer().RawFd()}
+		s.ip, s.port, err = sockName(s.fd)
+		if err != nil {
+			return err
+		}
+		ephemeral := addr == "" || strings.HasSuffix(addr, ":0")
+		if !ephemeral || !e.portTaken(s.port) || try > 8 {
+			break
+		}
+		e.d.info["ephemeral port collided with another reuse socket, peer re-created"]++
+		_ = p.Close()
 	}
 	ev.Ip, ev.Port = s.ip, s.port
 	e.addSock(s)
